@@ -395,6 +395,20 @@ pub fn source(c: &MsgCase) -> String {
             false,
             &mut s,
         );
+        // the ordered pattern in line has been matched once of its two times
+        {
+            s.push_str("    {\n");
+            s.push_str(&format!(
+                "        let u = Unimock::new(({g}.next_call(matching!(7) /*MARK_K*/).returns(1u8).n_times(2),\n            {f}.next_call(matching!({pat})).returns(1u8))).no_verify_in_drop();\n"
+            ));
+            s.push_str(&format!("        let _ = <Unimock as Tr{gargs}>::g(&u, 7u8);\n"));
+            let mut body = String::new();
+            let callexpr = call(t, &mut body);
+            s.push_str(&body);
+            s.push_str(&format!(
+                "        let m = msg_of(std::panic::catch_unwind(std::panic::AssertUnwindSafe(|| {{ {callexpr}; }})));\n        out.push(format!(\"wrongorder-partial\\u{{3}}{{}}\", m));\n    }}\n"
+            ));
+        }
         scenario(
             "outofrange",
             &format!("{f}.next_call(matching!({pat})).returns(1u8)"),
@@ -492,6 +506,7 @@ pub fn judge(c: &MsgCase, line: &str) -> Result<CaseInfo, String> {
             "twice" => Some("MARK_D"),
             "nooutput" => Some("MARK_E"),
             "wrongorder" => Some("MARK_F"),
+            "wrongorder-partial" => Some("MARK_K"),
             "verify" => Some("MARK_G"),
             "explicit-2nd" => Some("MARK_H"),
             "twice-2nd" => Some("MARK_I"),
@@ -517,7 +532,7 @@ pub fn judge(c: &MsgCase, line: &str) -> Result<CaseInfo, String> {
             if !loc_ok {
                 return Err(format!("{ctx}: the message does not give the pattern's location (case file, line {ln}): {msg:?}"));
             }
-            let (path, want_doc) = if tag == "wrongorder" {
+            let (path, want_doc) = if tag.starts_with("wrongorder") {
                 ("Tr::g", "(7)".to_string())
             } else {
                 ("Tr::f", doc.clone())
@@ -530,7 +545,7 @@ pub fn judge(c: &MsgCase, line: &str) -> Result<CaseInfo, String> {
                     .map(|(_, t)| t.to_string())
                     .unwrap_or_default();
                 let mut pos = 0usize;
-                let mut ok = tag != "wrongorder";
+                let mut ok = !tag.starts_with("wrongorder");
                 for a in c.atoms() {
                     match tail[pos..].find(&a) {
                         Some(i) => pos += i + a.len(),
@@ -548,6 +563,9 @@ pub fn judge(c: &MsgCase, line: &str) -> Result<CaseInfo, String> {
                 classes.push("pattern-text-matched-by-atoms-only");
             }
             classes.push("pattern-named-with-location");
+            if tag == "wrongorder-partial" {
+                classes.push("wrong-order-while-a-pattern-is-partly-consumed");
+            }
             if tag.ends_with("-2nd") {
                 classes.push("error-raised-by-second-pattern-of-the-method");
             }
@@ -613,7 +631,7 @@ pub fn judge(c: &MsgCase, line: &str) -> Result<CaseInfo, String> {
             "explicit" | "explicit-2nd" => "kind:explicit-panic",
             "twice" | "twice-2nd" => "kind:cannot-return-twice",
             "nooutput" | "nooutput-2nd" => "kind:no-output-available",
-            "wrongorder" => "kind:wrong-order",
+            "wrongorder" | "wrongorder-partial" => "kind:wrong-order",
             "outofrange" => "kind:out-of-range",
             "nomock" => "kind:no-mock-implementation",
             "verify" => "verification-line",
@@ -740,10 +758,26 @@ pub fn run(ctx: &Ctx) -> Verdict {
             break;
         }
     }
+    // arbitrary Unicode text as arguments: run-time sub-check hosted by the rt engine
+    v.subs.push(vcore::sub_report_from("rt", &["--sub-json", "C19", ctx.tier.name()], "text-arguments"));
     v
 }
 
-pub fn replay(_sub: &str, case: Value) -> Result<(), String> {
+pub fn replay(sub: &str, case: Value) -> Result<(), String> {
+    if sub == "text-arguments" {
+        // hosted by the run-time engine (no compilation needed)
+        let exe = std::env::current_exe().map_err(|e| format!("HARNESS: {e}"))?.with_file_name("rt");
+        let out = std::process::Command::new(&exe)
+            .args(["--replay-case", "C19", "text-arguments", &case.to_string()])
+            .output()
+            .map_err(|e| format!("HARNESS: cannot run {}: {e}", exe.display()))?;
+        let text = String::from_utf8_lossy(&out.stdout).trim().to_string();
+        return match out.status.code() {
+            Some(0) => Ok(()),
+            Some(1) => Err(text),
+            _ => Err(format!("HARNESS: rt --replay-case: {text}")),
+        };
+    }
     let c: MsgCase = serde_json::from_value(case).map_err(|e| format!("HARNESS: bad case: {e}"))?;
     let prelude = prelude();
     match e2::run_single(&spec(&prelude), &c) {
